@@ -1,6 +1,10 @@
 //! C01/C03/C04: read a frame through the public opcode-enum readers, write the decoded value back.
 use std::io::Cursor;
 
+pub fn parse_kind_pub(dbg: &str) -> String {
+    parse_kind(dbg)
+}
+
 fn parse_kind(dbg: &str) -> String {
     // Debug text of ParseError { .., kind: <Kind>(..) }
     if let Some(i) = dbg.find("Enum(EnumError { name: \"") {
